@@ -1150,7 +1150,7 @@ def _argspace_exec(args):
                     o1 = o1.nulls_first() if c["n1"] == "first" else o1.nulls_last()
                     o2 = t.k2.descending() if c["d2"] else t.k2
                     o2 = o2.nulls_first() if c["n2"] == "first" else o2.nulls_last()
-                    r = t >> arrange(o1, o2)
+                    r = (t >> mutate(k=2) >> arrange(pdt.C.k, o1, o2) >> select(t.rid, t.k1, t.k2)) if c.get("ck") else (t >> arrange(o1, o2))
                     if c["take"]:
                         r = r >> slice_head(c["take"])
                     rec["out"] = (r >> export(pdt.Polars()))["rid"].to_list()
@@ -1210,7 +1210,10 @@ def _argspace_exec(args):
                     rec["out"] = [99 if byrid[i] is None else int(byrid[i]) for i in range(1, len(keys) + 1)]
                 elif c["verb"] == "joinrows":
                     lt, rt = keytbl(bk, "l", c["l"]), keytbl(bk, "r", c["r"])
-                    on = "k" if c["on"] == "str" else (lt.k == rt.k) if c["on"] == "eq" else (lt.k <= rt.k)
+                    if not c.get("named", True) and bk == "polars":
+                        lt, rt = pdt.Table(frames[("l", tuple(c["l"]))]), pdt.Table(frames[("r", tuple(c["r"]))])
+                    on = ("k" if c["on"] == "str" else (lt.k == rt.k) if c["on"] == "eq" else (lt.k <= rt.k) if c["on"] == "le"
+                          else (lt.k == rt.k) & (lt.lid <= rt.rid))
                     df = lt >> join(rt, on, how=c["how"]) >> export(pdt.Polars())
                     rec["out"] = [[a or 0, b or 0] for a, b in zip(df["lid"].to_list(), df["rid"].to_list())]
                 else:
@@ -1355,7 +1358,7 @@ def _cachegraph_exec(args):
     def meta(t):
         c = t._cache
         return dict(names=list(c.name_to_uuid.keys()), part=[c.uuid_to_name.get(u, "?hidden") for u in c.partition_by],
-                    lim=int(c.limit), ngrp=1 if len(c.group_by) > 0 else 0, filt=bool(c.is_filtered), summ=bool(c.is_summarized))
+                    lim=-1 if c.limit is None else int(c.limit), ngrp=1 if len(c.group_by) > 0 else 0, filt=bool(c.is_filtered), summ=bool(c.is_summarized))
 
     bad = []
     n = 0
@@ -1392,7 +1395,7 @@ def phase_cachegraph(ctx, phase):
     def key(s):
         return json.dumps(s, sort_keys=True)
 
-    init = dict(names=src, part=[], lim=0, ngrp=0, filt=False, summ=False)
+    init = dict(names=src, part=[], lim=-1, ngrp=0, filt=False, summ=False)
     parents = {key(init): None}
     for tr in trans:            # BFS order (one worker): the first transition into a state gives its path
         kt = key(tr["t"])
